@@ -619,3 +619,87 @@ Definition time_guard (fallback timer_on : bool) (fe : emission -> outcome N) (e
       | None => fe em
       end
   end.
+
+(** ** Span events reconfigured at run time (a fmt subscriber behind [reload::Subscriber])
+
+    [reload::Handle::modify(|s| s.set_span_events(kind))] (or [Handle::reload] with a new fmt subscriber of the same type)
+    changes WHICH lifecycle points the layer reports while spans are alive.  Two facts of fmt_subscriber.rs matter:
+    - [on_new_span] stores the [Timings] extension on the span only [if fmt_timing && trace_close()] — according to the
+      configuration AT SPAN CREATION; nothing stores it later;
+    - [on_enter] / [on_exit] / [on_close] consult the configuration current WHEN THE POINT HAPPENS; [on_close] writes
+      [if trace_close() { if let Some(timing) = ext.get::<Timings>() { close + time.busy/idle } else { close } }]:
+      the record is written whether or not the span carries [Timings]; the extension only decides the two fields.
+    [gated = true] is the other shape a tree may have (read from the source by translators/fmtbuf.py on every run):
+      [if trace_close() { if fmt_timing { if let Some(timing) = .. { timed record } } else { plain record } }] —
+    a span created before CLOSE was switched on has no [Timings] and gets NO close record (seeded C13-J).
+    [timing] = the subscriber's [fmt_timing] (a timer is configured; [without_time()] changes the TYPE, so neither
+    [modify] nor [reload] can change it). *)
+Inductive rop :=
+| ROp (x : op)                                       (* an event, or an enter / exit point of a span *)
+| RNew (id : N) (m : emeta) (scope : list span)       (* on_new_span of span [id] *)
+| RClose (id : N) (m : emeta) (scope : list span)     (* on_close of span [id] *)
+| RReconf (sc : spancfg).                            (* modify(set_span_events) / reload *)
+
+Record cfstate := CfSt { r_cfg : spancfg; r_timed : list N }.
+
+Definition has_timings (st : cfstate) (id : N) : bool := existsb (N.eqb id) (r_timed st).
+
+Definition close_flds (timed : bool) : flds :=
+  FOk (str "message") (lifecycle_msg LClose)
+      (if timed then FOk (str "time.busy") (str "T") (FOk (str "time.idle") (str "T") FNil) else FNil).
+
+Definition close_emissions (gated timing : bool) (sc : spancfg) (timed : bool) (m : emeta) (scope : list span) : list emission :=
+  if sc_close sc then
+    if gated then (if timing then (if timed then [Em m scope (close_flds true)] else []) else [Em m scope (close_flds false)])
+    else [Em m scope (close_flds timed)]
+  else [].
+
+Definition rstep (gated timing : bool) (st : cfstate) (x : rop) : list emission * cfstate :=
+  match x with
+  | ROp x => (expand (r_cfg st) timing x, st)
+  | RNew id m scope =>
+      (expand (r_cfg st) timing (OpSpan LNew m scope),
+       if timing && sc_close (r_cfg st) then CfSt (r_cfg st) (id :: r_timed st) else st)
+  | RClose id m scope => (close_emissions gated timing (r_cfg st) (has_timings st id) m scope, st)
+  | RReconf sc => ([], CfSt sc (r_timed st))
+  end.
+
+(** per op: what it makes reach [on_event] *)
+Fixpoint rtrace (gated timing : bool) (st : cfstate) (ops : list rop) : list (list emission) :=
+  match ops with
+  | [] => []
+  | x :: t => let (ems, st') := rstep gated timing st x in ems :: rtrace gated timing st' t
+  end.
+
+Definition rexpand (gated timing : bool) (sc0 : spancfg) (ops : list rop) : list emission :=
+  concat (rtrace gated timing (CfSt sc0 []) ops).
+
+Definition thread_events_r (fe : emission -> outcome N) (gated : bool) (sc0 : spancfg) (timing : bool) (ops : list rop)
+  : list (event N emeta) :=
+  map (gev_of fe) (rexpand gated timing sc0 ops).
+
+(** the configuration that is current when each op of a history happens *)
+Fixpoint cfgs_at (sc : spancfg) (ops : list rop) : list spancfg :=
+  match ops with
+  | [] => []
+  | x :: t => sc :: cfgs_at (match x with RReconf sc' => sc' | _ => sc end) t
+  end.
+
+(** the lifecycle point an op is, if any *)
+Definition rop_point (x : rop) : option (lifecycle * emeta * list span) :=
+  match x with
+  | ROp (OpSpan k m scope) => Some (k, m, scope)
+  | RNew _ m scope => Some (LNew, m, scope)
+  | RClose _ m scope => Some (LClose, m, scope)
+  | _ => None
+  end.
+
+(** the property's clause for one op under the configuration current when it happens: a configured lifecycle point is
+    exactly one emission with the span's metadata and scope whose first field is the point's name; an unconfigured one
+    none; an event exactly itself; a reconfiguration nothing *)
+Definition point_spec (sc : spancfg) (x : rop) (ems : list emission) : Prop :=
+  match rop_point x with
+  | Some (k, m, scope) =>
+      if lifecycle_on sc k then exists rest, ems = [Em m scope (FOk (str "message") (lifecycle_msg k) rest)] else ems = []
+  | None => match x with ROp (OpEvent em) => ems = [em] | _ => ems = [] end
+  end.
